@@ -4,18 +4,22 @@
 
 static const struct { uint8_t b[2]; size_t n; } POOL[8] = {
 	{ {0, 0}, 0 }, { {'a', 0}, 1 }, { {'a', 0}, 2 }, { {'a', 'b'}, 2 }, { {'b', 0}, 1 }, { {0x7f, 0}, 1 }, { {0x80, 0}, 1 }, { {0xff, 0xff}, 2 } };
+/* second pool: keys of 4-5 bytes whose leading bytes span the whole byte range (word-wise or signed comparisons go wrong here) */
+static const struct { uint8_t b[5]; size_t n; } POOL2[8] = {
+	{ {0x00, 0x00, 0x00, 0x00, 0x00}, 5 }, { {0x00, 0x00, 0x00, 0x01}, 4 }, { {0x01, 0x61, 0x61, 0x61}, 4 }, { {0x7f, 0xff, 0xff, 0xff}, 4 },
+	{ {0x80, 0x00, 0x00, 0x00}, 4 }, { {0xf0, 0x61, 0x61, 0x61}, 4 }, { {0xff, 0xff, 0xff, 0xfe}, 4 }, { {0xff, 0xff, 0xff, 0xff}, 4 } };
 static int P08, P10;
 
-typedef struct { int n; int key[8]; int big[8]; int comp; int restart; } gcase;
+typedef struct { int n; int key[8]; int big[8]; int comp; int restart; int pool; } gcase;
 static void render(char *b, size_t n, void *ctx) {
-	gcase *c = ctx; int o = snprintf(b, n, "G:%d:%d:", c->comp, c->restart);
+	gcase *c = ctx; int o = snprintf(b, n, "G:%d:%d:", c->comp, c->restart + 100 * c->pool);
 	for (int i = 0; i < c->n; i++) o += snprintf(b + o, n - o, "%d%c", c->key[i], c->big[i] ? 'B' : 's');
 }
 
 static void run(gcase *c) {
 	vh_case_begin(render, c);
 	tkv e[8]; mtbl_res res[8]; bool acc[8];
-	for (int i = 0; i < c->n; i++) { e[i].k = POOL[c->key[i]].b; e[i].kl = POOL[c->key[i]].n; e[i].vl = c->big[i] ? 600 : 1; e[i].v = tbl_val(i + 1, e[i].vl); }
+	for (int i = 0; i < c->n; i++) { e[i].k = c->pool ? POOL2[c->key[i]].b : POOL[c->key[i]].b; e[i].kl = c->pool ? POOL2[c->key[i]].n : POOL[c->key[i]].n; e[i].vl = c->big[i] ? 600 : 1; e[i].v = tbl_val(i + 1, e[i].vl); }
 	tcfg cfg = { 0 }; cfg.comp = c->comp; cfg.block_size = 1024; cfg.restart = c->restart;
 	int fd = tbl_write(&cfg, e, c->n, res);
 	/* reference gate: strictly greater than the last accepted key */
@@ -121,6 +125,7 @@ int main(int argc, char **argv) {
 		if (vh_case_arg[0] == 'X') { excl(); return vh_finish(); }
 		const char *s = vh_case_arg; int off = 0;
 		if (sscanf(s, "G:%d:%d:%n", &c.comp, &c.restart, &off) < 2) return 2;
+		c.pool = c.restart / 100; c.restart %= 100;
 		s += off; c.n = 0;
 		while (*s && c.n < 8) { c.key[c.n] = *s - '0'; c.big[c.n] = s[1] == 'B'; c.n++; s += 2; }
 		run(&c); return vh_finish();
@@ -138,7 +143,8 @@ int main(int argc, char **argv) {
 				for (int i = 0; i < n; i++) c.big[i] = bm >> i & 1;
 				for (int cf = 0; cf < (vh_thorough ? 3 : 2); cf++) {
 					c.comp = cf == 2 ? 3 : 0; c.restart = cf == 1 ? 1 : 16;
-					run(&c);
+					c.pool = 0; run(&c);
+					if (cf == 0) { c.pool = 1; run(&c); c.pool = 0; }
 					if (VH_WANT_SAMPLE() && n == maxn && x % 977 == 5) { char b[128]; render(b, sizeof b, &c); vh_sample("%s", b); }
 				}
 			}
